@@ -438,6 +438,33 @@ def c09_boundary(state):
     return on_boundary
 
 
+def nb_mean(pop, maximize, t):
+    """mean nearest-better distance of a population [(genome, fitness)] after keeping the best
+    int(n*t); None when the definition is ambiguous here (duplicate genomes, a fitness tie across
+    the cut, non-finite values) or there is no distance at all"""
+    n = len(pop)
+    X = np.array([g for g, _ in pop], dtype=float)
+    f = np.array([v for _, v in pop], dtype=float)
+    if not np.all(np.isfinite(f)) or len({tuple(x) for x in X.tolist()}) < n:
+        return None
+    key = -f if maximize else f
+    order = sorted(range(n), key=lambda i: key[i])
+    m = int(n * t)
+    if m < 2:
+        return None
+    if m < n and key[order[m - 1]] == key[order[m]]:
+        return None
+    kept = order[:m]
+    root_key = key[kept[0]]
+    if sum(1 for j in kept if key[j] == root_key) > 1:
+        return None  # which of the tied best is the root depends on the sort
+    ds = []
+    for i in kept[1:]:
+        better = [j for j in kept if key[j] < key[i]]
+        ds.append(float(np.min(np.linalg.norm(X[i] - X[better], axis=1))))
+    return float(np.mean(ds)) if ds else None
+
+
 def c09(run):
     out = []
     s = run.spec["sprout"]
@@ -463,6 +490,19 @@ def c09(run):
             if "nbcfar" in s["deme_filters"] and s["generator"] != "best":
                 checks.append(("nbc", s["fil_dist_factor"], s["norm_ord"], s["check_only_active"]))
         gen = next((st for st in r["stages"] if st["stage"] == "generator"), None)
+        # the "mean nearest-better distance of the parent's population" a candidate carries must be that
+        # of its own parent's current population (NBC_FarEnough multiplies it by the factor)
+        tf = s.get("trunc_factor")
+        if gen and tf is not None:
+            for did, c in gen["out"].items():
+                pop = r["pre_pops"].get(did)
+                if c.get("nbc_mean") is None or not pop or not pre[did]["active"]:
+                    continue
+                m = nb_mean(pop, run.spec["maximize"], tf)
+                if m is None:
+                    continue
+                if abs(c["nbc_mean"] - m) > 1e-9 * max(abs(m), 1e-300):
+                    out.append(V("C09/nbc-mean-not-of-the-parents-population", f"round of metaepoch {r['metaepoch']}: candidates of deme {did} carry nbc_mean_distance {c['nbc_mean']}, the mean nearest-better distance of its current population is {m}"))
         for par, seeds in r["seeds"].items():
             tl = pre[par]["level"] + 1
             for kind, thr, ordn, only_active in checks:
@@ -572,6 +612,59 @@ def c10(run):
 
 
 # ------------------------------------------------------------------------------------- C11 / C12
+class cma_protocol:
+    """records, per CMA-ES strategy object, the sequence of `ask` / `tell` calls of a run (library-level
+    patch of `cma.CMAEvolutionStrategy`, undone on exit).  CMA-ES breeds a generation from the one it was
+    last *told*: "bred from the generation immediately before" is a statement about this sequence."""
+
+    def __enter__(self):
+        import cma
+
+        self.cls = cma.CMAEvolutionStrategy
+        self.ask0, self.tell0 = self.cls.ask, self.cls.tell
+        log = self.log = {}
+        ask0, tell0 = self.ask0, self.tell0
+
+        def ask(es, *a, **k):
+            out = ask0(es, *a, **k)
+            log.setdefault(id(es), []).append(("ask", [tuple(float(t) for t in x) for x in out]))
+            return out
+
+        def tell(es, solutions, function_values, *a, **k):
+            log.setdefault(id(es), []).append(("tell", [tuple(float(t) for t in x) for x in solutions]))
+            return tell0(es, solutions, function_values, *a, **k)
+
+        self.cls.ask, self.cls.tell = ask, tell
+        return log
+
+    def __exit__(self, *exc):
+        self.cls.ask, self.cls.tell = self.ask0, self.tell0
+        return False
+
+
+def c11_cma(run, log):
+    """every CMA-ES generation after the first is asked right after the strategy was told exactly the
+    generation asked before it"""
+    out = []
+    by_es = {id(getattr(d, "_cma_es", None)): did for did, d in run.deme_objs.items() if getattr(d, "_cma_es", None) is not None}
+    for key, seq in log.items():
+        did = by_es.get(key, "?")
+        last_ask = None
+        told = True  # nothing to tell before the first ask
+        for k, (op, xs) in enumerate(seq):
+            if op == "ask":
+                if last_ask is not None and not told:
+                    out.append(V("C11/cma-generation-not-bred-from-the-previous-one", f"CMA deme {did}: generation asked at call {k + 1} although the strategy was never told the generation asked before it (it is a second draw from the same distribution)"))
+                    break
+                last_ask, told = xs, False
+            else:
+                if last_ask is not None and sorted(xs) != sorted(last_ask):
+                    out.append(V("C11/cma-told-something-else", f"CMA deme {did}: call {k + 1} tells the strategy {len(xs)} points that are not the generation it asked last"))
+                    break
+                told = True
+    return out
+
+
 def c11_c12(run):
     o11, o12 = [], []
     mx = run.spec["maximize"]
